@@ -218,3 +218,14 @@ Fixpoint spec_run (s : sst) (ops : list op) : sst * list (option obs) :=
   | [] => (s, [])
   | o :: r => let (s1, x) := spec_step s o in let (s2, xs) := spec_run s1 r in (s2, x :: xs)
   end.
+
+(** * Create-and-fill: a new array holding the container's values converted to the stored type, with
+    exactly the container's extents - or no array at all *)
+Definition spec_create_fill (elem stored : dtype) (r : route) (ext : list Z) (vals : list V) : option sst :=
+  let sh := route_shape r ext in
+  if Nat.eqb (List.length sh) 0 || (32 <? List.length sh)%nat then None
+  else if negb (conv_ok elem stored) then None
+  else match mapO (fun v => to_opt (conv_val elem stored v)) vals with
+       | None => None
+       | Some vs => spec_write (spec_start stored sh) (repeat 0 (List.length sh)) sh vs
+       end.
